@@ -104,6 +104,12 @@ func propC12(w *World, r *Report) {
 	r.Extra["quiescent_states"] = qs
 	r.Extra["entries"] = entryNames(c)
 	r.Extra["tracked_fields"] = trackedNames(c)
+	// Y6: no index panic in the pre-trigger ring: its update forms (Lemma R in DESIGN.md needs exactly these) and
+	// the processor never rewinding it
+	checkRingMove(w, r, "Y6")
+	checkRingResetAndOldest(w, r, "Y6")
+	checkRingHistoryForms(w, r, "Y6")
+	checkRingUsage(w, r, run, "Y6")
 	// Y4: who may call the sinks
 	checkWhoMayCallSinks(w, r, c)
 	// Y5: wiring passes non-nil motion and test sinks
